@@ -16,16 +16,20 @@ def files_of(patch_path):
     return ", ".join(sorted(set(re.findall(r"^\+\+\+ b/(\S+)", txt, flags=re.M))))
 
 
-def what(meta, k):
-    """first 'Change:' paragraph of the k-th mutation in the author's notes"""
+def what(meta, k, j=None):
+    """first paragraph about the k-th (or, in the author's own numbering, j-th) change in the author's notes"""
     notes = meta.get("needs_to_manifest") or ""
-    parts = re.split(r"^## ", notes, flags=re.M)
-    for p in parts:
-        if re.match(rf"Mutation {k}\b", p):
-            m = re.search(r"Change:(.*?)(?:\n\n|\Z)", p, flags=re.S)
-            if m:
-                return " ".join(m.group(1).split())[:260]
-            return " ".join(p.split("\n", 1)[-1].split())[:260]
+    parts = re.split(r"^##+ ", notes, flags=re.M)
+    for n in [k] + ([j] if j else []):
+        for p in parts:
+            head = p.split("\n", 1)[0]
+            if re.match(rf"(Mutation|Change|Patch|patch|Seed)\s*{n}\b", head) or f"patch{n}.diff" in head:
+                m = re.search(r"Change:(.*?)(?:\n\n|\Z)", p, flags=re.S)
+                if m:
+                    return " ".join(m.group(1).split())[:260]
+                body = p.split("\n", 1)[-1].strip()
+                first = re.split(r"\n\s*\n", body)[0] if body else head
+                return " ".join((head + ": " + first).split())[:260]
     return ""
 
 
@@ -42,8 +46,13 @@ def main():
         for c in (m.get("checks") or {}).values():
             if c.get("summary"):
                 summ = c["summary"][-1]
+        # the author's own numbering: changes that share one notes file are numbered 1, 2, ... in id order
+        same = sorted(int(x.split("-")[1]) for x in os.listdir(SEEDED)
+                      if x.startswith(d.split("-")[0] + "-") and os.path.exists(os.path.join(SEEDED, x, "meta.json"))
+                      and json.load(open(os.path.join(SEEDED, x, "meta.json"))).get("needs_to_manifest") == m.get("needs_to_manifest"))
+        j = same.index(k) + 1 if k in same else None
         rows.append((d, m.get("property"), files_of(os.path.join(SEEDED, d, "patch.diff")), m.get("confirmed"),
-                     ", ".join(det) if det else "NOT DETECTED", summ, what(m, k)))
+                     ", ".join(det) if det else "NOT DETECTED", summ, what(m, k, j)))
     out = ["# Seeded changes and what caught them", "",
            "Every row is a change written by a fresh sub-agent that was given only the property's text and a scratch",
            "worktree; each was confirmed here (the repository's 442 tests still pass with it, the author's demo fails",
